@@ -449,7 +449,7 @@ func readerTable(w *core.World) (map[string]*readerCase, *core.FuncInfo) {
 					}
 				case *ast.AssignStmt:
 					if len(x.Rhs) == 1 {
-						if id, ok := x.Rhs[0].(*ast.Ident); ok && id.Name == "value" {
+						if id, ok := x.Rhs[0].(*ast.Ident); ok && (id.Name == "value" || decodedValueVar(tabFn, info.Uses[id])) {
 							rc.passthru = true
 						}
 					}
@@ -613,6 +613,57 @@ func checkC08(r *core.Run) {
 					}
 					return true
 				})
+				return true
+			})
+		}
+	}
+	// the same, written as `if c.ColumnType == A || c.ColumnType == B { .. []byte(s) }`
+	if mfn := methodInfo(w, w.NamedType("pkg/datasource/sql/types", "ColumnImage"), "MarshalJSON"); mfn != nil {
+		for _, g := range withCallees(w, mfn, 2) {
+			ginfo := g.Pkg.TypesInfo
+			ast.Inspect(g.Decl.Body, func(n ast.Node) bool {
+				is, ok := n.(*ast.IfStmt)
+				if !ok {
+					return true
+				}
+				var codes []string
+				okChain := true
+				var walk func(e ast.Expr)
+				walk = func(e ast.Expr) {
+					be, isBin := ast.Unparen(e).(*ast.BinaryExpr)
+					switch {
+					case isBin && be.Op == token.LOR:
+						walk(be.X)
+						walk(be.Y)
+					case isBin && be.Op == token.EQL:
+						sel, isSel := ast.Unparen(be.X).(*ast.SelectorExpr)
+						c := core.ConstObj(ginfo, be.Y)
+						if isSel && sel.Sel.Name == "ColumnType" && c != nil {
+							codes = append(codes, c.Name())
+						} else {
+							okChain = false
+						}
+					default:
+						okChain = false
+					}
+				}
+				walk(is.Cond)
+				if !okChain || len(codes) == 0 {
+					return true
+				}
+				for _, st := range is.Body.List {
+					if as, ok := st.(*ast.AssignStmt); ok {
+						for _, rh := range as.Rhs {
+							if c, ok := ast.Unparen(rh).(*ast.CallExpr); ok {
+								if tv, ok := ginfo.Types[c.Fun]; ok && tv.IsType() && tv.Type.String() == "[]byte" {
+									for _, code := range codes {
+										textEncoded[code] = true
+									}
+								}
+							}
+						}
+					}
+				}
 				return true
 			})
 		}
@@ -1375,4 +1426,22 @@ func c08Whole(r *core.Run) {
 				bad+": a large or very repetitive undo log is cut short or rejected at rollback although it was written without error")
 		}
 	}
+}
+
+// decodedValueVar: o is a local variable of f defined once from the decoded document's "value" entry (m["value"])
+func decodedValueVar(f *core.FuncInfo, o types.Object) bool {
+	v, ok := o.(*types.Var)
+	if !ok || f == nil || v.IsField() {
+		return false
+	}
+	defs := localDefs(f, v)
+	if len(defs) != 1 {
+		return false
+	}
+	ix, ok := ast.Unparen(defs[0].rhs).(*ast.IndexExpr)
+	if !ok {
+		return false
+	}
+	c := core.ConstVal(f.Pkg.TypesInfo, ix.Index)
+	return c != nil && c.Kind() == constant.String && constant.StringVal(c) == "value"
 }
